@@ -153,7 +153,7 @@ def logs_universe(run, tier, b):
             if rc != 0 or 'ERROR:' in err:
                 run.note('logs case %s/%s: daemon rc=%s (reported by C08/C10 if it is a crash)' % (name, rk, rc))
             alltext = '\n'.join(files.values())
-            if name == 'all-to-file':
+            if name == 'all-to-file' and not run.violations and not run.capped:
                 if 'Unrecognized info request' not in alltext or 'Unexpected XR reply' not in alltext:
                     raise common.HarnessError('vacuous: the warning-producing events did not produce log text in all.log: %r' % alltext[-500:])
                 if rk == 'syntax-error' and 'Premature end' not in alltext and 'Expected a' not in alltext:
